@@ -235,6 +235,25 @@ fn variant(dbg: String) -> String {
     dbg.split('(').next().unwrap().to_string()
 }
 
+thread_local! {
+    /// set by a setter closure when the object that was written through describes itself differently from a fresh view over its bytes
+    static STALE: std::cell::RefCell<Option<String>> = const { std::cell::RefCell::new(None) };
+}
+/// Run a setter on a packet object and compare what the SAME object then says about itself (its Debug text: every field, the
+/// options and the payload) with what a fresh read-only view over the bytes says: an accessor must depend on the buffer alone.
+macro_rules! set_on {
+    ($P:ty, $b:ident, $p:ident => $call:expr) => {{
+        let seen = {
+            let mut $p = <$P>::new(&mut *$b).unwrap();
+            $call;
+            std::panic::catch_unwind(std::panic::AssertUnwindSafe(|| format!("{:?}", $p))).ok()
+        };
+        let fresh = std::panic::catch_unwind(std::panic::AssertUnwindSafe(|| format!("{:?}", <$P>::new_view(&*$b).unwrap()))).ok();
+        if seen != fresh {
+            STALE.with(|s| *s.borrow_mut() = Some(format!("object_says_{}_fresh_view_says_{}", seen.unwrap_or_else(|| "panic".into()), fresh.unwrap_or_else(|| "panic".into())).replace(' ', "")));
+        }
+    }};
+}
 macro_rules! uint {
     ($ty:literal, $name:literal, $P:ty, $get:ident, $set:ident, $t:ty, $kind:expr) => {
         Field {
@@ -243,7 +262,7 @@ macro_rules! uint {
             kind: $kind,
             get: |b| <$P>::new_view(b).unwrap().$get().to_string(),
             getn: |b| u128::from(<$P>::new_view(b).unwrap().$get()),
-            set: |b, v, _| <$P>::new(b).unwrap().$set(v as $t),
+            set: |b, v, _| set_on!($P, b, p => p.$set(v as $t)),
         }
     };
 }
@@ -255,7 +274,7 @@ macro_rules! newtype {
             kind: Kind::U8,
             get: |b| <$P>::new_view(b).unwrap().$get().0.to_string(),
             getn: |b| u128::from(<$P>::new_view(b).unwrap().$get().0),
-            set: |b, v, _| <$P>::new(b).unwrap().$set($N(v as u8)),
+            set: |b, v, _| set_on!($P, b, p => p.$set($N(v as u8))),
         }
     };
 }
@@ -272,7 +291,7 @@ macro_rules! enumf {
             getn: |b| u128::from(<$P>::new_view(b).unwrap().$get().id()),
             set: |b, v, other| {
                 let e = if other { <$E>::Other(v as u8) } else { <$E>::from(v as u8) };
-                <$P>::new(b).unwrap().$set(e)
+                set_on!($P, b, p => p.$set(e))
             },
         }
     };
@@ -285,7 +304,7 @@ macro_rules! addr4 {
             kind: Kind::Addr4,
             get: |b| hex(&<$P>::new_view(b).unwrap().$get().octets()),
             getn: |b| u128::from(u32::from_be_bytes(<$P>::new_view(b).unwrap().$get().octets())),
-            set: |b, v, _| <$P>::new(b).unwrap().$set(Ipv4Addr::from((v as u32).to_be_bytes())),
+            set: |b, v, _| set_on!($P, b, p => p.$set(Ipv4Addr::from((v as u32).to_be_bytes()))),
         }
     };
 }
@@ -297,7 +316,7 @@ macro_rules! addr16 {
             kind: Kind::Addr16,
             get: |b| hex(&<$P>::new_view(b).unwrap().$get().octets()),
             getn: |b| u128::from_be_bytes(<$P>::new_view(b).unwrap().$get().octets()),
-            set: |b, v, _| <$P>::new(b).unwrap().$set(Ipv6Addr::from(v.to_be_bytes())),
+            set: |b, v, _| set_on!($P, b, p => p.$set(Ipv6Addr::from(v.to_be_bytes()))),
         }
     };
 }
@@ -530,6 +549,7 @@ fn set_case(f: &Field, v: u128, other: bool, base: &[u8], out: &mut Out, st: &mu
     if base.iter().any(|b| *b != 0) { st.nonzero_base += 1; }
     let set = f.set;
     let getn = f.getn;
+    STALE.with(|s| *s.borrow_mut() = None);
     let r = std::panic::catch_unwind(|| {
         let mut b = base.to_vec();
         set(&mut b, v, other);
@@ -548,6 +568,9 @@ fn set_case(f: &Field, v: u128, other: bool, base: &[u8], out: &mut Out, st: &mu
                 format!("FAIL:C12:bit_{}_outside_[{},{})_changed_{}->{}", i, off, off + w, bit(base, i), bit(&after, i))
             } else if back != want {
                 format!("FAIL:C12:getter_reads_back={}_expected={}", back, want)
+            } else if let Some(m) = STALE.with(|s| s.borrow_mut().take()) {
+                let m: String = m.chars().take(300).collect();
+                format!("FAIL:C12:after_the_setter_the_object_disagrees_with_its_buffer:{m}")
             } else {
                 "ok".to_string()
             };
